@@ -405,10 +405,12 @@ class Compiler:
             try:
                 with open_device(filepath, "wb") as f:
                     f.write(result)
-            except IOError as ex:
+            except (IOError, ValueError) as ex:
+                # ValueError: a path open() refuses outright, e.g. one with a
+                # NUL character or one that cannot be encoded
                 reports.error(
                     "io-error",
-                    (ctx_start, ctx_end, f"Could not write to '{filepath}':\n{ex}")
+                    (ctx_start, ctx_end, f"Could not write to {filepath!r}:\n{ex}")
                 )
             else:
                 print(f"File '{filepath}' was written in format '{file_format}'", file=sys.stderr)
